@@ -1,6 +1,561 @@
 /- Helper lemmas for Properties/C16.lean. -/
 import SpsdkVerif.Model.BinImage
+import SpsdkVerif.Proofs.Misc
 
 namespace SpsdkVerif.BinImg
+open SpsdkVerif SpsdkVerif.Misc
+
+/-- structural induction over the nested inductive `Img` -/
+theorem Img.induct' (P : Img → Prop)
+    (h : ∀ s o a b p ch, (∀ c ∈ ch, P c) → P (.mk s o a b p ch)) : ∀ i, P i :=
+  fun i => Img.rec (motive_1 := P) (motive_2 := fun l => ∀ c ∈ l, P c)
+    (fun s o a b p ch ih => h s o a b p ch ih) (by intro c hc; cases hc)
+    (fun hd tl ih1 ih2 => by
+      intro c hc
+      rcases List.mem_cons.1 hc with rfl | h'
+      · exact ih1
+      · exact ih2 c h') i
+
+/-! ### patterns, alignment -/
+
+theorem block_length (p : Pattern) (n : Nat) : (p.block n).length = n := by
+  cases p <;> simp [Pattern.block, cycleTake_length]
+
+theorem patBlock_length (p : Option Pattern) (n : Nat) : (patBlock p n).length = n := by
+  cases p <;> simp [patBlock, block_length]
+
+theorem patBlock_zero (p : Option Pattern) : patBlock p 0 = [] :=
+  List.eq_nil_of_length_eq_zero (patBlock_length p 0)
+
+theorem cycleTake_add (p : Bytes) (n m i : Nat) :
+    cycleTake p (n + m) i = cycleTake p n i ++ cycleTake p m (i + n) := by
+  induction n generalizing i with
+  | zero => simp [cycleTake]
+  | succ n ih =>
+    have : n + 1 + m = (n + m) + 1 := by omega
+    rw [this, cycleTake, cycleTake, ih]
+    simp [Nat.add_assoc, Nat.add_comm 1 n]
+
+theorem patBlock_add (p : Option Pattern) (n m : Nat) :
+    ∃ ext, patBlock p (n + m) = patBlock p n ++ ext ∧ ext.length = m := by
+  cases p with
+  | none => exact ⟨List.replicate m 0, by simp [patBlock, List.replicate_append_replicate], by simp⟩
+  | some p =>
+    cases p with
+    | zeros =>
+      exact ⟨List.replicate m 0, by simp [patBlock, Pattern.block, List.replicate_append_replicate], by simp⟩
+    | ones =>
+      exact ⟨List.replicate m 0xFF, by simp [patBlock, Pattern.block, List.replicate_append_replicate], by simp⟩
+    | inc =>
+      refine ⟨((List.range' n m)).map (fun i => UInt8.ofNat (i % 256)), ?_, by simp⟩
+      simp only [patBlock, Pattern.block]
+      rw [← List.map_append]
+      congr 1
+      have := @List.range'_append_1 0 n m
+      simpa [List.range_eq_range'] using this.symm
+    | num v =>
+      refine ⟨cycleTake (beEnc (max (byteLen v) 1) v) m (0 + n), ?_, by simp [cycleTake_length]⟩
+      simp only [patBlock, Pattern.block]
+      exact cycleTake_add _ _ _ _
+
+theorem alignNat_one (n : Nat) : alignNat n 1 = n := by simp [alignNat]
+
+theorem alignNat_of_mod (n a : Nat) (ha : 0 < a) (h : n % a = 0) : alignNat n a = n := by
+  have e2 := Nat.mod_add_div n a
+  rw [h] at e2
+  generalize n / a = q at e2
+  subst e2
+  unfold alignNat
+  rw [Nat.zero_add, Nat.mul_add_div ha, Nat.div_eq_of_lt (by omega), Nat.add_zero, Nat.mul_comm]
+
+/-! ### `blit`, `ownBuf` -/
+
+theorem blit_ok (buf : Bytes) (off : Nat) (d : Bytes) (h : off + d.length ≤ buf.length) :
+    ∃ buf', blit buf off d = .ok buf' ∧ buf'.length = buf.length ∧
+      ∀ k, buf'[k]? = if off ≤ k ∧ k < off + d.length then d[k - off]? else buf[k]? := by
+  unfold blit
+  by_cases hd : d = []
+  · subst hd
+    refine ⟨buf, by simp, rfl, ?_⟩
+    intro k
+    have : ¬ (off ≤ k ∧ k < off + ([] : Bytes).length) := by simp
+    rw [if_neg this]
+  · have hd' : d.isEmpty = false := by cases d <;> simp_all
+    refine ⟨buf.take off ++ d ++ buf.drop (off + d.length), by simp [hd', h], ?_, ?_⟩
+    · simp; omega
+    · intro k
+      have hl : (buf.take off).length = off := by simp; omega
+      by_cases h1 : k < off
+      · have : ¬ (off ≤ k ∧ k < off + d.length) := by omega
+        rw [if_neg this, List.append_assoc, List.getElem?_append_left (by omega), List.getElem?_take]
+        simp [h1]
+      · by_cases h2 : k < off + d.length
+        · rw [if_pos ⟨by omega, h2⟩, List.append_assoc, List.getElem?_append_right (by omega), hl,
+            List.getElem?_append_left (by omega)]
+        · have : ¬ (off ≤ k ∧ k < off + d.length) := by omega
+          rw [if_neg this, List.getElem?_append_right (by simp; omega), List.getElem?_drop]
+          congr 1
+          simp; omega
+
+theorem blit_spec (buf : Bytes) (off : Nat) (d buf' : Bytes) (h : blit buf off d = .ok buf') :
+    buf'.length = buf.length ∧ (d ≠ [] → off + d.length ≤ buf.length) := by
+  unfold blit at h
+  by_cases hd : d = []
+  · subst hd
+    simp at h; subst h; simp
+  · have hd' : d.isEmpty = false := by cases d <;> simp_all
+    simp only [hd', Bool.false_eq_true, if_false] at h
+    by_cases hf : off + d.length ≤ buf.length
+    · rw [if_pos hf] at h
+      cases h
+      refine ⟨by simp; omega, fun _ => hf⟩
+    · rw [if_neg hf] at h; cases h
+
+theorem blit_append (buf : Bytes) (off : Nat) (d buf' ext : Bytes) (h : blit buf off d = .ok buf') :
+    blit (buf ++ ext) off d = .ok (buf' ++ ext) := by
+  unfold blit at h ⊢
+  by_cases hd : d = []
+  · subst hd
+    simp at h ⊢; subst h; rfl
+  · have hd' : d.isEmpty = false := by cases d <;> simp_all
+    simp only [hd', Bool.false_eq_true, if_false] at h ⊢
+    by_cases hf : off + d.length ≤ buf.length
+    · rw [if_pos hf] at h
+      cases h
+      rw [if_pos (by simp; omega)]
+      congr 1
+      rw [List.take_append_of_le_length (by omega), List.drop_append_of_le_length (by omega)]
+      simp
+    · rw [if_neg hf] at h; cases h
+
+theorem ownBuf_length (L : Nat) (bin : Option Bytes) (pat : Option Pattern) (h : binLen bin ≤ L) :
+    (ownBuf L bin pat).length = L := by
+  unfold ownBuf
+  cases bin with
+  | none => simp [patBlock_length]
+  | some b =>
+    simp only [binLen] at h
+    by_cases hb : b.isEmpty
+    · simp [hb, patBlock_length]
+    · simp [hb, patBlock_length]; omega
+
+theorem ownBuf_get_bin (L : Nat) (b : Bytes) (pat : Option Pattern) (k : Nat) (hk : k < b.length) :
+    (ownBuf L (some b) pat)[k]? = b[k]? := by
+  unfold ownBuf
+  have hb : b.isEmpty = false := by cases b <;> simp_all
+  simp only [hb, Bool.false_eq_true, if_false]
+  rw [List.getElem?_append_left hk]
+
+theorem ownBuf_get_fill (L : Nat) (bin : Option Bytes) (pat : Option Pattern) (k : Nat)
+    (hk : binLen bin ≤ k) : (ownBuf L bin pat)[k]? = (patBlock pat L)[k]? := by
+  unfold ownBuf
+  cases bin with
+  | none => rfl
+  | some b =>
+    simp only [binLen] at hk
+    by_cases hb : b.isEmpty
+    · simp [hb]
+    · have hb' : b.isEmpty = false := by simpa using hb
+      simp only [hb', Bool.false_eq_true, if_false]
+      rw [List.getElem?_append_right hk, List.getElem?_drop]
+      congr 1; omega
+
+theorem ownBuf_add (M m : Nat) (bin : Option Bytes) (pat : Option Pattern) (h : binLen bin ≤ M) :
+    ∃ ext, ownBuf (M + m) bin pat = ownBuf M bin pat ++ ext ∧ ext.length = m := by
+  obtain ⟨ext, he, hl⟩ := patBlock_add pat M m
+  refine ⟨ext, ?_, hl⟩
+  unfold ownBuf
+  cases bin with
+  | none => exact he
+  | some b =>
+    simp only [binLen] at h
+    by_cases hb : b.isEmpty
+    · simp [hb, he]
+    · have hb' : b.isEmpty = false := by simpa using hb
+      simp only [hb', Bool.false_eq_true, if_false, he]
+      rw [List.drop_append_of_le_length (by rw [patBlock_length]; exact h), List.append_assoc]
+
+/-! ### validation -/
+
+/-- interval overlap of two siblings, on raw numbers -/
+def Ov (cb cl sb sl : Nat) : Prop := cb < sb + sl ∧ sb < cb + cl
+
+theorem overlapsAny_false (b l : Nat) (sibs : List (Nat × Nat)) :
+    overlapsAny b l sibs = false ↔ ∀ s ∈ sibs, ¬ Ov b l s.1 s.2 := by
+  induction sibs with
+  | nil => simp [overlapsAny]
+  | cons s rest ih =>
+    obtain ⟨sb, sl⟩ := s
+    simp only [overlapsAny, List.mem_cons, forall_eq_or_imp, Ov]
+    by_cases h : ((b : Int) + l - 1 < sb ∨ (b : Int) > sb + sl - 1)
+    · rw [if_pos h, ih]
+      simp only [Ov]
+      constructor
+      · intro h'; exact ⟨by omega, h'⟩
+      · intro h'; exact h'.2
+    · rw [if_neg h]
+      simp only [Bool.true_eq_false, false_iff, not_and]
+      intro h'; omega
+
+theorem mem_append_iff_idx (before rest : List Img) (c s : Img) :
+    s ∈ before ++ rest ↔ ∃ j, j ≠ before.length ∧ (before ++ c :: rest)[j]? = some s := by
+  constructor
+  · intro h
+    rcases List.mem_append.1 h with h | h
+    · obtain ⟨j, hj⟩ := List.mem_iff_getElem?.1 h
+      have hlt : j < before.length := (List.getElem?_eq_some_iff.1 hj).1
+      exact ⟨j, by omega, by rw [List.getElem?_append_left hlt]; exact hj⟩
+    · obtain ⟨j, hj⟩ := List.mem_iff_getElem?.1 h
+      refine ⟨before.length + 1 + j, by omega, ?_⟩
+      rw [List.getElem?_append_right (by omega)]
+      have : before.length + 1 + j - before.length = j + 1 := by omega
+      rw [this, List.getElem?_cons_succ]; exact hj
+  · rintro ⟨j, hne, hj⟩
+    by_cases hlt : j < before.length
+    · rw [List.getElem?_append_left hlt] at hj
+      exact List.mem_append_left _ (List.mem_of_getElem? hj)
+    · rw [List.getElem?_append_right (by omega)] at hj
+      obtain ⟨i, hi⟩ : ∃ i, j - before.length = i + 1 := ⟨j - before.length - 1, by omega⟩
+      rw [hi, List.getElem?_cons_succ] at hj
+      exact List.mem_append_right _ (List.mem_of_getElem? hj)
+
+theorem validateChildren_ok_iff (pl : Nat) (all before rest : List Img) :
+    validateChildren pl all before rest = .ok () ↔
+      (∀ c ∈ rest, c.validate = .ok () ∧ c.offset + c.len ≤ pl) ∧
+      (∀ k j c s, rest[k]? = some c → (before ++ rest)[j]? = some s → j ≠ before.length + k →
+        ¬ Ov c.offset c.len s.offset s.len) := by
+  induction rest generalizing before with
+  | nil => simp [validateChildren]
+  | cons c rest ih =>
+    rw [validateChildren]
+    cases hv : c.validate with
+    | error e =>
+      simp only []
+      constructor
+      · intro h; cases h
+      · intro h; have := (h.1 c (by simp)).1; rw [hv] at this; cases this
+    | ok u =>
+      cases u
+      simp only []
+      by_cases hs : ((c.offset : Int) + c.len - 1 ≥ pl)
+      · rw [if_pos hs]
+        constructor
+        · intro h; cases h
+        · intro h; have := (h.1 c (by simp)).2; omega
+      · rw [if_neg hs]
+        cases ho : overlapsAny c.offset c.len ((before ++ rest).map (fun s => (s.offset, s.len))) with
+        | true =>
+          simp only [if_true]
+          constructor
+          · intro h; cases h
+          · intro h
+            have hf : overlapsAny c.offset c.len ((before ++ rest).map (fun s => (s.offset, s.len))) = false := by
+              rw [overlapsAny_false]
+              intro s hs'
+              obtain ⟨x, hx, rfl⟩ := List.mem_map.1 hs'
+              obtain ⟨j, hj1, hj2⟩ := (mem_append_iff_idx before rest c x).1 hx
+              exact h.2 0 j c x (by simp) hj2 (by omega)
+            rw [hf] at ho; cases ho
+        | false =>
+          simp only [Bool.false_eq_true, if_false]
+          rw [ih]
+          rw [overlapsAny_false] at ho
+          constructor
+          · rintro ⟨h1, h2⟩
+            refine ⟨?_, ?_⟩
+            · intro c' hc'
+              rcases List.mem_cons.1 hc' with rfl | hc'
+              · exact ⟨hv, by omega⟩
+              · exact h1 c' hc'
+            · intro k j c' s hk hj hne
+              cases k with
+              | zero =>
+                have hk' : c = c' := by simpa using hk
+                subst hk'
+                have : s ∈ before ++ rest := (mem_append_iff_idx before rest c s).2 ⟨j, by omega, hj⟩
+                exact ho (s.offset, s.len) (List.mem_map.2 ⟨s, this, rfl⟩)
+              | succ k =>
+                rw [List.getElem?_cons_succ] at hk
+                refine h2 k j c' s hk ?_ ?_
+                · rw [List.append_assoc]; exact hj
+                · simp; omega
+          · rintro ⟨h1, h2⟩
+            refine ⟨fun c' hc' => h1 c' (List.mem_cons_of_mem _ hc'), ?_⟩
+            intro k j c' s hk hj hne
+            refine h2 (k + 1) j c' s (by rw [List.getElem?_cons_succ]; exact hk) ?_ ?_
+            · rw [List.append_assoc] at hj; exact hj
+            · simp at hne; omega
+
+/-- no two children at distinct positions overlap -/
+def NoOverlapIdx (l : List Img) : Prop :=
+  ∀ (a b : Nat) (ca cb : Img), a ≠ b → l[a]? = some ca → l[b]? = some cb → ¬ Ov ca.offset ca.len cb.offset cb.len
+
+theorem validate_ok_iff (s o al : Nat) (bin : Option Bytes) (pat : Option Pattern) (ch : List Img) :
+    (Img.mk s o al bin pat ch).validate = .ok () ↔
+      binLen bin ≤ (Img.mk s o al bin pat ch).len ∧
+      (∀ c ∈ ch, c.validate = .ok () ∧ c.offset + c.len ≤ (Img.mk s o al bin pat ch).len) ∧
+      NoOverlapIdx ch := by
+  rw [Img.validate]
+  by_cases h : binLen bin > (Img.mk s o al bin pat ch).len
+  · rw [if_pos h]
+    constructor
+    · intro h'; cases h'
+    · intro h'; omega
+  · rw [if_neg h, validateChildren_ok_iff]
+    simp only [List.nil_append, List.length_nil, Nat.zero_add, NoOverlapIdx]
+    constructor
+    · rintro ⟨h1, h2⟩
+      exact ⟨by omega, h1, fun a b ca cb hab ha hb => h2 a b ca cb ha hb (by omega)⟩
+    · rintro ⟨_, h1, h2⟩
+      exact ⟨h1, fun k j c s hk hj hne => h2 k j c s (by omega) hk hj⟩
+
+/-! ### export -/
+
+theorem NoOverlapIdx.tail {c : Img} {cs : List Img} (h : NoOverlapIdx (c :: cs)) : NoOverlapIdx cs :=
+  fun a b ca cb hab ha hb =>
+    h (a + 1) (b + 1) ca cb (by omega) (by rw [List.getElem?_cons_succ]; exact ha)
+      (by rw [List.getElem?_cons_succ]; exact hb)
+
+theorem NoOverlapIdx.head {c : Img} {cs : List Img} (h : NoOverlapIdx (c :: cs)) :
+    ∀ s ∈ cs, ¬ Ov c.offset c.len s.offset s.len := by
+  intro s hs
+  obtain ⟨j, hj⟩ := List.mem_iff_getElem?.1 hs
+  exact h 0 (j + 1) c s (by omega) (by simp) (by rw [List.getElem?_cons_succ]; exact hj)
+
+theorem placeChildren_spec (ch : List Img) (buf : Bytes)
+    (hfit : ∀ c ∈ ch, ∃ d, c.export = .ok d ∧ d.length = c.len ∧ c.offset + c.len ≤ buf.length) :
+    ∃ buf', placeChildren ch buf = .ok buf' ∧ buf'.length = buf.length ∧
+      (∀ k, (∀ c ∈ ch, k < c.offset ∨ c.offset + c.len ≤ k) → buf'[k]? = buf[k]?) ∧
+      (NoOverlapIdx ch → ∀ c ∈ ch, ∀ d, c.export = .ok d → ∀ j, j < d.length →
+        buf'[c.offset + j]? = d[j]?) := by
+  induction ch generalizing buf with
+  | nil =>
+    refine ⟨buf, by simp [placeChildren], rfl, fun _ _ => rfl, ?_⟩
+    intro _ c hc; cases hc
+  | cons c cs ih =>
+    obtain ⟨d, hd, hdl, hdf⟩ := hfit c (by simp)
+    obtain ⟨buf1, hb1, hl1, hg1⟩ := blit_ok buf c.offset d (by omega)
+    obtain ⟨buf', hb', hl', hfree, hat⟩ := ih buf1 (by
+      intro c' hc'
+      obtain ⟨d', h1, h2, h3⟩ := hfit c' (List.mem_cons_of_mem _ hc')
+      exact ⟨d', h1, h2, by omega⟩)
+    refine ⟨buf', ?_, by omega, ?_, ?_⟩
+    · rw [placeChildren, hd]; simp only []; rw [hb1]; simp only []; exact hb'
+    · intro k hk
+      rw [hfree k (fun c' hc' => hk c' (List.mem_cons_of_mem _ hc')), hg1 k]
+      have := hk c (by simp)
+      rw [if_neg (by omega)]
+    · intro hno c' hc' d' hd' j hj
+      rcases List.mem_cons.1 hc' with rfl | hc'
+      · rw [hd] at hd'; cases hd'
+        rw [hfree, hg1, if_pos (by omega)]
+        · congr 1; omega
+        · intro s hs
+          have := hno.head s hs
+          simp only [Ov] at this
+          omega
+      · exact hat hno.tail c' hc' d' hd' j hj
+
+theorem placeChildren_length (ch : List Img) (buf buf' : Bytes) (h : placeChildren ch buf = .ok buf') :
+    buf'.length = buf.length := by
+  induction ch generalizing buf with
+  | nil => simp [placeChildren] at h; subst h; rfl
+  | cons c cs ih =>
+    rw [placeChildren] at h
+    cases hd : c.export with
+    | error e => rw [hd] at h; cases h
+    | ok d =>
+      rw [hd] at h; simp only [] at h
+      cases hb : blit buf c.offset d with
+      | error e => rw [hb] at h; cases h
+      | ok buf1 =>
+        rw [hb] at h; simp only [] at h
+        rw [ih buf1 h, (blit_spec _ _ _ _ hb).1]
+
+theorem placeChildren_append (ch : List Img) (buf buf' ext : Bytes) (h : placeChildren ch buf = .ok buf') :
+    placeChildren ch (buf ++ ext) = .ok (buf' ++ ext) := by
+  induction ch generalizing buf with
+  | nil => simp [placeChildren] at h ⊢; subst h; rfl
+  | cons c cs ih =>
+    rw [placeChildren] at h ⊢
+    cases hd : c.export with
+    | error e => rw [hd] at h; cases h
+    | ok d =>
+      rw [hd] at h; simp only [] at h ⊢
+      cases hb : blit buf c.offset d with
+      | error e => rw [hb] at h; cases h
+      | ok buf1 =>
+        rw [hb] at h; simp only [] at h
+        rw [blit_append _ _ _ _ ext hb]; simp only []
+        exact ih buf1 h
+
+theorem finishExport_aligned (al : Nat) (pat : Option Pattern) (buf : Bytes) (hal : 0 < al)
+    (h : buf.length % al = 0) : finishExport al pat (.ok buf) = .ok buf := by
+  simp only [finishExport]
+  rw [if_neg (by omega), alignNat_of_mod _ _ hal h, Nat.sub_self, patBlock_zero, List.append_nil]
+
+/-- with a positive alignment and an aligned length the single-binary fast path of `export` agrees with
+    the general path -/
+theorem export_eq_general (s o al : Nat) (bin : Option Bytes) (pat : Option Pattern) (ch : List Img)
+    (hal : 0 < al) (h : (Img.mk s o al bin pat ch).len % al = 0) :
+    (Img.mk s o al bin pat ch).export =
+      finishExport al pat (placeChildren ch (ownBuf (Img.mk s o al bin pat ch).len bin pat)) := by
+  by_cases hc : ∃ b, bin = some b ∧ ch = []
+  · obtain ⟨b, rfl, rfl⟩ := hc
+    rw [Img.export]
+    simp only [placeChildren]
+    split
+    · rename_i hcond
+      simp only [Bool.and_eq_true, Bool.not_eq_true', beq_iff_eq] at hcond
+      obtain ⟨hne, hlen⟩ := hcond
+      have : ownBuf (Img.mk s o al (some b) pat []).len (some b) pat = b := by
+        unfold ownBuf
+        simp only [hne, Bool.false_eq_true, if_false, hlen]
+        rw [List.drop_of_length_le (by rw [patBlock_length]; exact Nat.le_refl _), List.append_nil]
+      rw [this, finishExport_aligned al pat b hal (by rw [← hlen]; exact h)]
+    · rfl
+  · rw [Img.export.eq_2]
+    intro b hb hch
+    exact hc ⟨b, hb, hch⟩
+
+theorem export_spec (s o al : Nat) (bin : Option Bytes) (pat : Option Pattern) (ch : List Img)
+    (hal : 0 < al) (hs : s % al = 0)
+    (hv : (Img.mk s o al bin pat ch).validate = .ok ())
+    (hch : ∀ c ∈ ch, ∃ d, c.export = .ok d ∧ d.length = c.len) :
+    ∃ b, (Img.mk s o al bin pat ch).export = .ok b ∧ b.length = (Img.mk s o al bin pat ch).len ∧
+      (∀ k, (∀ c ∈ ch, k < c.offset ∨ c.offset + c.len ≤ k) →
+        b[k]? = (ownBuf (Img.mk s o al bin pat ch).len bin pat)[k]?) ∧
+      (∀ c ∈ ch, ∀ d, c.export = .ok d → ∀ j, j < d.length → b[c.offset + j]? = d[j]?) := by
+  have hlen : (Img.mk s o al bin pat ch).len % al = 0 := by
+    rw [Img.len]
+    split
+    · exact hs
+    · exact (alignNat_spec _ _ hal).1
+  rw [export_eq_general s o al bin pat ch hal hlen]
+  obtain ⟨hbin, hfit, hno⟩ := (validate_ok_iff s o al bin pat ch).1 hv
+  generalize (Img.mk s o al bin pat ch).len = L at *
+  have hol := ownBuf_length L bin pat hbin
+  obtain ⟨buf', hb', hl', hfree, hat⟩ := placeChildren_spec ch (ownBuf L bin pat) (by
+    intro c hc
+    obtain ⟨d, h1, h2⟩ := hch c hc
+    exact ⟨d, h1, h2, by rw [hol]; exact (hfit c hc).2⟩)
+  refine ⟨buf', ?_, by omega, hfree, hat hno⟩
+  rw [hb', finishExport_aligned al pat buf' hal (by rw [hl', hol]; exact hlen)]
+
+
+/-! ### alignment only extends -/
+
+theorem len_size_zero (o al : Nat) (bin : Option Bytes) (pat : Option Pattern) (ch : List Img) :
+    (Img.mk 0 o al bin pat ch).len = alignNat (max (binLen bin) (childrenEnd ch)) al := by
+  rw [Img.len]; simp
+
+theorem align_extends' (off a : Nat) (bin : Option Bytes) (pat : Option Pattern) (ch : List Img) (b1 : Bytes)
+    (ha : 0 < a) (h1 : (Img.mk 0 off 1 bin pat ch).export = .ok b1) :
+    ∃ pad, (Img.mk 0 off a bin pat ch).export = .ok (b1 ++ pad) ∧
+      (b1 ++ pad).length = alignNat b1.length a := by
+  rw [export_eq_general _ _ _ _ _ _ (by omega) (Nat.mod_one _), len_size_zero, alignNat_one] at h1
+  obtain ⟨hA1, hA2, _⟩ := alignNat_spec (max (binLen bin) (childrenEnd ch)) a ha
+  rw [export_eq_general _ _ _ _ _ _ ha (by rw [len_size_zero]; exact hA1), len_size_zero]
+  have hM : binLen bin ≤ max (binLen bin) (childrenEnd ch) := Nat.le_max_left _ _
+  generalize max (binLen bin) (childrenEnd ch) = M at *
+  cases hp : placeChildren ch (ownBuf M bin pat) with
+  | error e => rw [hp] at h1; simp [finishExport] at h1
+  | ok buf1 =>
+    have hl1 : buf1.length = M := by
+      rw [placeChildren_length _ _ _ hp, ownBuf_length _ _ _ hM]
+    rw [hp, finishExport_aligned 1 pat buf1 (by omega) (Nat.mod_one _)] at h1
+    cases h1
+    obtain ⟨ext, he, hel⟩ := ownBuf_add M (alignNat M a - M) bin pat hM
+    have hMa : M + (alignNat M a - M) = alignNat M a := by omega
+    rw [hMa] at he
+    refine ⟨ext, ?_, ?_⟩
+    · rw [he, placeChildren_append _ _ _ ext hp, finishExport_aligned a pat _ ha]
+      rw [List.length_append, hl1, hel, hMa]; exact hA1
+    · rw [List.length_append, hl1, hel, hMa]
+
+/-! ### `add_image` -/
+
+theorem mem_insertSorted (c : Img) (l : List Img) (x : Img) : x ∈ insertSorted c l ↔ x = c ∨ x ∈ l := by
+  induction l with
+  | nil => simp [insertSorted]
+  | cons y ys ih =>
+    rw [insertSorted]
+    split
+    · simp
+    · simp only [List.mem_cons, ih]
+      constructor
+      · rintro (h | h | h) <;> simp [h]
+      · rintro (h | h | h) <;> simp [h]
+
+theorem length_insertSorted (c : Img) (l : List Img) : (insertSorted c l).length = l.length + 1 := by
+  induction l with
+  | nil => simp [insertSorted]
+  | cons y ys ih =>
+    rw [insertSorted]
+    split <;> simp [ih]
+
+theorem sorted_insertSorted (c : Img) (l : List Img) (h : l.Pairwise (fun x y => x.offset ≤ y.offset)) :
+    (insertSorted c l).Pairwise (fun x y => x.offset ≤ y.offset) := by
+  induction l with
+  | nil => simp [insertSorted]
+  | cons y ys ih =>
+    rw [insertSorted]
+    rw [List.pairwise_cons] at h
+    split
+    · rename_i hlt
+      refine List.pairwise_cons.2 ⟨?_, List.pairwise_cons.2 h⟩
+      intro z hz
+      rcases List.mem_cons.1 hz with rfl | hz
+      · omega
+      · have := h.1 z hz; omega
+    · rename_i hge
+      refine List.pairwise_cons.2 ⟨?_, ih h.2⟩
+      intro z hz
+      rcases (mem_insertSorted c ys z).1 hz with rfl | hz
+      · omega
+      · exact h.1 z hz
+
+theorem len_withOffset (c : Img) (o : Nat) : (c.withOffset o).len = c.len := by
+  cases c with
+  | mk s o' a b p ch => simp only [Img.withOffset, Img.len]
+
+theorem offset_withOffset (c : Img) (o : Nat) : (c.withOffset o).offset = o := by
+  cases c with
+  | mk s o' a b p ch => rfl
+
+theorem children_addImage (p c : Img) : (p.addImage c).children = insertSorted c p.children := by
+  cases p with
+  | mk s o a b pt ch => rfl
+
+/-! ### lists -/
+
+theorem take_drop_of_get {α} (b d : List α) (o : Nat) (h : ∀ j, j < d.length → b[o + j]? = d[j]?) :
+    (b.drop o).take d.length = d := by
+  apply List.ext_getElem?
+  intro j
+  rw [List.getElem?_take]
+  split
+  · rename_i hj
+    rw [List.getElem?_drop]; exact h j hj
+  · rename_i hj
+    rw [List.getElem?_eq_none (by omega)]
+
+theorem take_drop_trans {α} (b bc bd : List α) (oc o : Nat)
+    (h1 : (b.drop oc).take bc.length = bc) (h2 : (bc.drop o).take bd.length = bd) :
+    (b.drop (oc + o)).take bd.length = bd := by
+  have hlen : bd.length ≤ bc.length - o := by
+    have := congrArg List.length h2
+    simp at this; omega
+  rw [← List.drop_drop]
+  conv => rhs; rw [← h2, ← h1]
+  rw [List.drop_take, List.take_take, Nat.min_eq_left hlen]
+
+
+/-! ### descending into children -/
+
+theorem validate_child (i c : Img) (hv : i.validate = .ok ()) (hc : c ∈ i.children) :
+    c.validate = .ok () ∧ c.offset + c.len ≤ i.len := by
+  cases i with
+  | mk s o a b p ch => exact ((validate_ok_iff s o a b p ch).1 hv).2.1 c hc
 
 end SpsdkVerif.BinImg
